@@ -199,7 +199,11 @@ impl<A: StationApps> World<A> {
                 let mut rng = Rng::new(self.rng.next_u64());
                 if let Some((delay, bytes)) = self.devices[d].on_frame(end, sender, &tel, &raw, &mut rng) {
                     if !bytes.is_empty() {
-                        self.push(end + delay.max(0), EvKind::DeviceTx(port, bytes));
+                        // never earlier than min Tsdr (11 bit), and at least 1 us: at 6/12 Mbit/s 11 bit
+                        // floor to 1/0 us and a reply starting in the same microsecond as the request's
+                        // end would lose its first byte to the half-duplex rule - a rounding artefact
+                        let min_delay = self.bus.borrow().bits(11).max(1);
+                        self.push(end + delay.max(min_delay), EvKind::DeviceTx(port, bytes));
                     }
                 }
             }
